@@ -156,8 +156,8 @@ class LockAnalysis:
         while changed:
             changed = False
             for k, m in methods.items():
-                if k in held or not sites[k] or m.name == "__init__":
-                    continue
+                if k in held or not sites[k] or m.name == "__init__" or not m.name.startswith("_") or m.name.startswith("__"):
+                    continue    # public methods can be entered from anywhere
                 ok = True
                 if all(call is not None and fi.name == "__init__" for fi, call in sites[k]):
                     continue    # construction-only helper: not a locked context
